@@ -151,7 +151,8 @@ Proof. exact cast_default_ok. Qed.
 Print Assumptions C16_cut_default_survives_reparse.
 
 (* A NEGATIVE length (only reachable through the length keyword, never through a type name) is not covered:
-   value[:-1] shortens the value again on every load (BLOB, length -1: b'abc' -> b'ab' -> b'a').  See notes/C16.md. *)
+   value[:-1] shortens the value again on every load (BLOB, length -1: b'abc' -> b'ab' -> b'a').  Outside the property's
+   quantifier (lengths come from the type-name forms, n >= 0): an observation, see notes/C16.md. *)
 Theorem C16_negative_length_refuted :
   exists q v r r', text_cast m_blob q v = Some (Ok r) /\ text_cast m_blob q r = Some (Ok r') /\ r <> r'.
 Proof. exact negative_length_not_fixed. Qed.
@@ -169,6 +170,63 @@ Theorem C16_restored_schema_keeps_every_column :
   forall f, f <> FType -> map (get f) (s_columns s') = map (get f) (s_columns s).
 Proof. exact schema_round_trip_keeps_columns. Qed.
 Print Assumptions C16_restored_schema_keeps_every_column.
+
+(* ---------------- round 3: the same objects used again after being changed ---------------- *)
+(* Sessions (Model/C16.v, "sessions"): a heap of column objects, the schema's columns list as references into it, the
+   schema's own attributes; operations: assign an attribute, append to a list attribute in place, append / pop the
+   columns list, scribble on a returned dictionary, and the observing operations to_dict + from_dict, to_json +
+   from_json, to_flatcolumn.  Observing changes nothing ... *)
+Theorem C16_observing_does_not_change_the_objects :
+  forall st : sstate,
+  (forall od orest, step st (SRound od orest) = Some st) /\
+  (forall o oj back, step st (SJson o oj back) = Some st) /\
+  step st SScribble = Some st.
+Proof. exact observing_keeps_state. Qed.
+Print Assumptions C16_observing_does_not_change_the_objects.
+
+(* ... assigning an attribute of one object shows at every position of the columns list that refers to that object
+   (a column listed twice), and at no other ... *)
+Theorem C16_assignment_shows_wherever_the_object_is_listed :
+  forall (h : list column) (refs : list nat) (top : schema) (o : nat) (f : field) (v : pv),
+  (o < List.length h)%nat ->
+  s_columns (view (upd o (set f v) h, refs, top)) =
+  map (fun i => if Nat.eqb i o then set f v (nth i h dummy_column) else nth i h dummy_column) refs.
+Proof. exact col_set_view. Qed.
+Print Assumptions C16_assignment_shows_wherever_the_object_is_listed.
+
+(* ... and WHATEVER the operations performed before (earlier to_dict calls, in-place appends, assignments, a grown or
+   shrunk columns list), the dictionary round trip taken now restores the schema AS IT IS NOW: the result is a function
+   of the current values [view st'] only.  (Same conclusion as C16_schema_dict_round_trip_partial, at the state reached.) *)
+Theorem C16_session_round_trip_restores_the_current_schema_partial :
+  forall (parse : str -> params -> pv -> result pv) (fresh : nat -> str) (st : sstate) (ops : list sop) (st' : sstate),
+  exec st ops = Some st' ->
+  Forall (persistable parse) (s_columns (view st')) -> plain_top (view st') ->
+  exists s', from_dict parse fresh (to_dict (view st')) = Ok s' /\
+             s_name s' = s_name (view st') /\ s_aliases s' = s_aliases (view st') /\ s_pk s' = s_pk (view st') /\
+             s_rcm s' = s_rcm (view st') /\ s_rce s' = s_rce (view st') /\ s_dsm s' = s_dsm (view st') /\ s_dse s' = s_dse (view st') /\
+             Forall2 same_but_untyped_type (s_columns s') (s_columns (view st')) /\
+             s_columns s' = map restored (s_columns (view st')).
+Proof. exact session_round_trip. Qed.
+Print Assumptions C16_session_round_trip_restores_the_current_schema_partial.
+
+(* to_flatcolumn reads the thirteen listed attributes and nothing else: an attribute outside the list (length - which
+   ConstantColumn / FunctionColumn use for their row count -, disposition, origin, expectations) may hold anything, be
+   assigned at any time, and the flattened column is the same. *)
+Theorem C16_flatten_ignores_unlisted_attributes :
+  forall (parse : str -> params -> pv -> result pv) (fresh : str) (c : column) (f : field) (v : pv),
+  ~ In f flat_kept -> to_flatcolumn parse fresh (set f v c) = to_flatcolumn parse fresh c.
+Proof. exact flatten_ignores_unlisted. Qed.
+Print Assumptions C16_flatten_ignores_unlisted_attributes.
+
+(* Flattening a column object after any sequence of assignments / in-place appends keeps the listed attributes of the
+   object as it is now. *)
+Theorem C16_session_flatten_keeps :
+  forall (parse : str -> params -> pv -> result pv) (fresh : str) (c : column) (ops : list fop) (c' : column) (s : str),
+  fexec c ops = Some c' ->
+  c_name c' = PA (AText s) -> normalised parse c' ->
+  exists r, to_flatcolumn parse fresh c' = Ok r /\ forall f, In f flat_kept -> get f r = get f c'.
+Proof. exact session_flatten_keeps. Qed.
+Print Assumptions C16_session_flatten_keeps.
 
 (* ---------------- witnesses ---------------- *)
 Definition P0 : str -> params -> pv -> result pv := fun _ _ v => Ok v.
@@ -304,3 +362,30 @@ Example C16_nonvacuous_repeated_names :
   let s := mkschema (T "j") (PL []) [id_left; id_right; id_left] (T "id") PNone PNone PNone PNone in
   from_dict P0 (fun _ => []) (to_dict s) = Ok s.
 Proof. vm_compute. reflexivity. Qed.
+
+(* Round 3 non-vacuity: a session on [id_left; id_right; id_left again - the SAME object]: save, append an alias to
+   object 0 and to the schema in place, list object 1 once more, save again.  The second round trip returns the
+   schema with the new alias at BOTH positions of object 0, the new schema alias and four columns. *)
+Example C16_nonvacuous_session :
+  let st0 : sstate := ([id_left; id_right], [0; 1; 0]%nat, mkschema (T "j") (PL []) [] (T "id") PNone PNone PNone PNone) in
+  let ops := [SRound (Raise OtherExn) (Raise OtherExn); SColAppend 0 FAliases (AText (txt "l.id"));
+              STopAppend (AText (txt "joined")); SListAppend 1; SRound (Raise OtherExn) (Raise OtherExn)] in
+  exists st', exec st0 ops = Some st' /\
+              from_dict P0 (fun _ => []) (to_dict (view st')) = Ok (view st') /\
+              map c_aliases (s_columns (view st')) = [PL [AText (txt "l.id")]; PL []; PL [AText (txt "l.id")]; PL []] /\
+              s_aliases (view st') = PL [AText (txt "joined")] /\
+              view st' <> view st0.
+Proof.
+  eexists. split; [vm_compute; reflexivity|]. split; [vm_compute; reflexivity|].
+  split; [vm_compute; reflexivity|]. split; [vm_compute; reflexivity|]. vm_compute. discriminate.
+Qed.
+
+(* A ConstantColumn-like object built for 1000 rows, later told to stand for 3 rows, flattens to the same column. *)
+Example C16_nonvacuous_flatten_session :
+  let c := mkcolumn (T "greeting") (T "hello, world!") (PA (ATy m_varchar)) PNone PNone PNone (PL []) (PA (ABool true)) (PL [])
+                    (T "0123456789abcdef") (PA (AInt 1000)) PNone PNone (PL []) PNone PNone PNone in
+  exists c', fexec c [FFlatten (RSame []) (RSame []); FSet FLength (PA (AInt 3)); FAppend FAliases (AText (txt "g"))] = Some c' /\
+             c_length c' = PA (AInt 3) /\
+             bind (to_flatcolumn PC [] c') (fun r => Ok (c_default r, c_length r, c_aliases r)) =
+             Ok (T "hello, world!", PNone, PL [AText (txt "g")]).
+Proof. eexists. split; [vm_compute; reflexivity|]. split; vm_compute; reflexivity. Qed.
